@@ -151,6 +151,17 @@ func c20Proposals(c *Check) {
 			f := fi.FactsAt(ret)
 			tested := &Facts{FI: fi, Atoms: f.Tested}
 			for _, in := range fi.EntryTo(ret) {
+				// handing the proposal to the raft goroutine counts as acting on it
+				switch x := in.(type) {
+				case *ssa.Send:
+					bad = append(bad, "channel send at "+p.site(in))
+				case *ssa.Select:
+					for _, stt := range x.States {
+						if stt.Dir == types.SendOnly {
+							bad = append(bad, "select with a send arm at "+p.site(in))
+						}
+					}
+				}
 				ci, ok := in.(ssa.CallInstruction)
 				if !ok {
 					continue
